@@ -136,13 +136,13 @@ def gen_script_traces(chk, gencfg, keep):
     out = os.path.join(chk.dir, "gen-" + gencfg + ".out")
     res = C.tlc("GenConn", gencfg, out, workers=6, timeout=1800)
     chk.model("GenConn/" + gencfg, res)
-    p = os.path.join(chk.dir, "trace-scripts.ndjson")
-    r = os.path.join(chk.dir, "gen-scripts.json")
+    p = os.path.join(chk.dir, "trace-scripts-%s.ndjson" % gencfg[:-4])
+    r = os.path.join(chk.dir, "gen-scripts-%s.json" % gencfg[:-4])
     C.harness("conn-run", ["script", out, p, keep, r], timeout=1800)
     os.remove(out)
     rep = C.load(r)
     rep["lane"] = "conn-script(%s, 1 in %d)" % (gencfg, keep)
-    return ("scripts", p, rep, 0)
+    return ("scripts:" + gencfg[:-4], p, rep, 0)
 
 
 def run_lane(pid, tier, mc, profiles, rule, selftests, assumptions=(), extra=None, scripts=None):
@@ -166,10 +166,10 @@ def lane_into(chk, pid, mc, profiles, rule, selftests, scripts=None):
         chk.model(name + "/" + cfg, res)
     first_seed = C.seed() * 100000 + 1
     traces = gen_traces(chk, profiles, first_seed)
-    if scripts:
+    for scripts in ([scripts] if isinstance(scripts, tuple) else (scripts or [])):
         traces.append(gen_script_traces(chk, scripts[0], scripts[1]))
         chk.rule.append("S->I: every environment script of %s (TLC, quiescent-step semantics: start/next/finish/server message/"
-                        "orphan/tick/fault stimuli, a stimulus only when no internal step is enabled), a seeded 1-in-%d sample of the "
+                        "orphan/tick/fault/peer-stops-reading/peer-reads-again stimuli, a stimulus only when no internal step is enabled), a seeded 1-in-%d sample of the "
                         "distinct scripts executed against the real code and validated like any other trace" % scripts)
     total_events = 0
     clean_first = True
